@@ -154,3 +154,75 @@ func TestVerif_C09Remote(t *testing.T) {
 		out.Stat(k, v)
 	}
 }
+
+// Spellings stream: one transaction whose recipients write one destination domain in several ways
+// (as given, another letter case, the A-label form of an internationalized domain).  The target
+// may open one connection per spelling; whatever it does, every accepted recipient gets exactly
+// one status under the address it was given.
+func TestVerif_C09RemoteSpell(t *testing.T) {
+	out := vOpenOut()
+	defer out.Close()
+	n := vEnvInt("VERIF_N", 30)
+	stats := map[string]int{}
+	zones := map[string]mockdns.Zone{
+		"example.invalid.":    {MX: []net.MX{{Host: "mx.example.invalid.", Pref: 10}}},
+		"xn--e1aybc.invalid.": {MX: []net.MX{{Host: "mx.example.invalid.", Pref: 10}}},
+		"тест.invalid.":       {MX: []net.MX{{Host: "mx.example.invalid.", Pref: 10}}},
+		"mx.example.invalid.": {A: []string{"127.0.0.1"}},
+	}
+	spellings := [][]string{
+		{"example.invalid", "EXAMPLE.invalid", "Example.Invalid", "example.invalid"},
+		{"тест.invalid", "xn--e1aybc.invalid", "xn--e1aybc.invalid", "ТЕСТ.invalid"},
+	}
+	locals := []string{"a", "b", "c", "bob", "d"}
+	ctx := context.Background()
+	for ci := 0; ci < n; ci++ {
+		r := vNewRand(uint64(905000 + ci))
+		if l, err := net.Listen("tcp", "127.0.0.1:0"); err == nil {
+			smtpPort = fmt.Sprint(l.Addr().(*net.TCPAddr).Port)
+			l.Close()
+		}
+		be, srv := testutils.SMTPServer(t, "127.0.0.1:"+smtpPort, func(s *smtp.Server) { s.EnableSMTPUTF8 = true })
+		tgt := testTarget(t, zones, nil, nil)
+		tgt.connReuseLimit = 10
+		fam := spellings[r.intn(len(spellings))]
+		var rcpts []string
+		k := 2 + r.intn(3)
+		perm := r.intn(len(locals))
+		for i := 0; i < k; i++ {
+			rcpts = append(rcpts, locals[(perm+i)%len(locals)]+"@"+fam[r.intn(len(fam))])
+		}
+		dataOK := !r.chance(25)
+		be.DataErr = nil
+		if !dataOK {
+			be.DataErr = &smtp.SMTPError{Code: 451, EnhancedCode: smtp.EnhancedCode{4, 0, 0}, Message: "try later"}
+		}
+		meta := &module.MsgMetadata{ID: fmt.Sprintf("verifsp%d", ci), SMTPOpts: smtp.MailOptions{UTF8: true}}
+		d, err := tgt.Start(ctx, meta, "sender@example.com")
+		if err != nil {
+			t.Fatal(err)
+		}
+		var oks, rt []string
+		anyOK := false
+		for _, a := range rcpts {
+			err := d.AddRcpt(ctx, a, smtp.RcptOptions{})
+			oks = append(oks, cBool(err == nil))
+			rt = append(rt, cBytes([]byte(a)))
+			anyOK = anyOK || err == nil
+		}
+		coll := &v9Coll{}
+		if anyOK {
+			hdr := textproto.Header{}
+			hdr.Add("Subject", "x")
+			d.(module.PartialDelivery).BodyNonAtomic(ctx, coll, hdr, buffer.MemoryBuffer{Slice: []byte("hi\r\n")})
+		}
+		d.Commit(ctx)
+		tgt.Close()
+		srv.Close()
+		out.Case(fmt.Sprintf("CRemoteSpell %s %s %s %s", cList(rt), cList(oks), cBool(dataOK), cList(coll.sts)))
+		stats["recipients"] += len(rcpts)
+	}
+	for k, v := range stats {
+		out.Stat(k, v)
+	}
+}
